@@ -59,7 +59,7 @@ TEnd == /\ Is("End") /\ ~Ev.inl /\ Ev.tnum \in Workers /\ running[Ev.tnum] = EvT
 
 \* ---- caller events (driver + hooks in include/nano/core/parallel.h)
 TMapCall == /\ Is("MapCall") /\ Ev.c \in Callers /\ Ev.k = ccall[Ev.c] + 1
-            /\ CStartArgs(Ev.c, Ev.n, Ev.chunk, Ev.raise) /\ Step
+            /\ (\E inl \in BOOLEAN : CStartPath(Ev.c, Ev.n, Ev.chunk, Ev.raise, inl)) /\ Step
 TBeginInl == /\ Is("Begin") /\ Ev.inl /\ Ev.tnum = 0 /\ Ev.c \in Callers
              /\ CInlineBegin(Ev.c) /\ crun'[Ev.c] = EvTask /\ Step
 TEndInl == /\ Is("End") /\ Ev.inl /\ Ev.c \in Callers /\ crun[Ev.c] = EvTask /\ CInlineEnd(Ev.c, ~Ev.threw) /\ Step
